@@ -283,7 +283,18 @@ PRE_EDIT_KINDS = ('rep-append', 'rep-insert', 'rep-extend', 'rep-pop', 'rep-deli
                   'tok-value', 'numop', 'value-set', 'meta-setkey', 'cost-set')
 
 
-def run_doc(ctx, text, auto, nrandom, sweep_frac, *, calls=None, pre=None, n_pre=0, pre_out=None):
+def run_doc(ctx, text, auto, nrandom, sweep_frac, *, calls=None, pre=None, n_pre=0, pre_out=None, lf=None):
+    """(`lf`: the store's load factor for this document - small values cut it into many blocks, so that the three-token
+    stretches the claim functions re-splice straddle block boundaries.)"""
+    import session
+    session.set_lf(lf)
+    try:
+        return _run_doc(ctx, text, auto, nrandom, sweep_frac, calls=calls, pre=pre, n_pre=n_pre, pre_out=pre_out, lf=lf)
+    finally:
+        session.set_lf(None)
+
+
+def _run_doc(ctx, text, auto, nrandom, sweep_frac, *, calls=None, pre=None, n_pre=0, pre_out=None, lf=None):
     """One document.  With `calls` given: replay exactly those.  Returns (signature, description, calls so far) or None.
     `pre` / `n_pre`: edits applied right after parsing, BEFORE anything is read: the non-edit calls are then judged on a
     document in a state only edits reach, with no view or cached property created yet."""
@@ -320,6 +331,8 @@ def run_doc(ctx, text, auto, nrandom, sweep_frac, *, calls=None, pre=None, n_pre
 
     def step(call):
         nonlocal nodes
+        if ctx is not None and hasattr(ctx, 'current'):
+            ctx.current({'text': text, 'auto': auto, 'calls': history[-30:] + [call], 'pre': pre or [], 'lf': lf})
         out = do_call(root, nodes, call, foreign)
         history.append(call)
         if ctx is not None:
@@ -379,7 +392,8 @@ def _run(ctx, ndocs, nrandom, sweep_frac, trace=True):
         for text in _documents(ctx, ndocs):
             auto = ctx.rng.random() < 0.5
             pre = []
-            res = run_doc(ctx, text, auto, nrandom, sweep_frac, n_pre=ctx.rng.choice([0, 0, 1, 2, 4]), pre_out=pre)
+            lf = ctx.rng.choice([3, 4, 5, 6, 8]) if ctx.rng.random() < 0.4 else None
+            res = run_doc(ctx, text, auto, nrandom, sweep_frac, n_pre=ctx.rng.choice([0, 0, 1, 2, 4]), pre_out=pre, lf=lf)
             if res == 'rejected':
                 ctx.count('doc:rejected')
                 continue
@@ -389,10 +403,10 @@ def _run(ctx, ndocs, nrandom, sweep_frac, trace=True):
                 last = history[-1]
                 slim = _slim_history(history)
                 # confirm the slimmed history still fails; otherwise keep everything
-                again = run_doc(None, text, auto, 0, 0, calls=slim, pre=pre)
+                again = run_doc(None, text, auto, 0, 0, calls=slim, pre=pre, lf=lf)
                 if not again or again == 'rejected' or again[0] != sig:
                     slim = history
-                ctx.oracle_fail(f'C04:{sig}:{last[0]}:{last[2] or ""}', f'{what} after {last}', {'text': text, 'auto': auto, 'calls': slim, 'pre': pre})
+                ctx.oracle_fail(f'C04:{sig}:{last[0]}:{last[2] or ""}', f'{what} after {last}', {'text': text, 'auto': auto, 'calls': slim, 'pre': pre, 'lf': lf})
     if trace:
         tr.diff(ctx, 'comments-lockstep')
 
@@ -439,5 +453,5 @@ def replay(ctx, data):
     rep = data.get('replay') or data.get('first_diverging_replay') or data
     if 'calls' not in rep:
         return False
-    res = run_doc(None, rep['text'], rep['auto'], 0, 0, calls=rep['calls'], pre=rep.get('pre'))
+    res = run_doc(None, rep['text'], rep['auto'], 0, 0, calls=rep['calls'], pre=rep.get('pre'), lf=rep.get('lf'))
     return res is None
